@@ -79,6 +79,14 @@ CHECKS.append({
     "technique": "Coq proof (well-founded measure on the disabled set and the unprocessed suffix; induction over include fuel) + model/implementation correspondence + reference-expander oracle",
 })
 
+CHECKS.append({
+    "property_id": "C14",
+    "text": "Coq theorems over a model of SourceManager: for every file text split at a line start and every inserted text of k whole lines, every later offset decodes to the same column and a line exactly k greater; for every set of loaded files the location handed out for an offset of file i decodes to file i's name and to the line/column inside that file (the ranges of different files are disjoint, each file owning length+1 slots), and files loaded later (further includes, ## scratch files) never change what an earlier location decodes to. The model is compared with SourceManager on every offset of multi-file sets. The rest of the property is checked metamorphically on the implementation: 22 programs (accepted and rejected; macros, conditionals, includes, nested includes, lexer / preprocessor / parser / type errors) are compiled for HLSL and MSL as written and with blanks, tabs, line feeds, line and block comments and backslash splices inserted at token boundaries (outside the two documented exceptions), and with k in {0,1,2,7,50} blank / comment / block-comment / blank-with-spaces lines in front of every file: output text and metadata must be byte-identical, messages identical, and every reported file:line:column must keep file and column and move by exactly k lines. One defect was repaired (a line end between a function-like macro name and its argument list left the invocation unexpanded).",
+    "design_ref": "DESIGN.md §4 C14",
+    "note": "Partial: trivia invariance of the lexer and of macro expansion is not proved (it is tested metamorphically on the implementation, which is sampling, not proof); the proved part is the position arithmetic. Trusted: Coq kernel, extraction + drivers, the harness's coarse tokenizer and diagnostic parser.",
+    "technique": "Coq proof (induction over file bytes / file lists) + model/implementation correspondence + metamorphic trivia and line-shift runs on the implementation",
+})
+
 _claimed = {c["property_id"] for c in CHECKS}
 NOT_APPLICABLE = [
     {"property_id": p, "reason": "not yet claimed: model/theorems under construction (see DESIGN.md build order); no check registered until it passes on the unchanged tree"}
